@@ -415,7 +415,7 @@ def same_out(a, b):
         A, Bv = np.asarray(a, dtype=float), np.asarray(b, dtype=float)
     except Exception:  # noqa
         return a == b
-    return A.shape == Bv.shape and bool(np.array_equal(A, Bv))
+    return A.shape == Bv.shape and bool(np.array_equal(A, Bv, equal_nan=True))      # the same non-finite answer is the same answer
 
 
 def _args(sp, case):
